@@ -91,7 +91,9 @@ def analyse(case, res):
         fails.append(Failure("C14.transport_open", f"C14.transport_open|{shape}",
                              f"{res.open_transports} connection(s) to simulators still open"))
     n_remote = sum(1 for t in transport.values() if t == "mem")
-    if res.virtual_elapsed > 0.1 * n_remote + 0.5:
+    # "promptly": a generous bound on the virtual clock (the harness configures stop_timeout = 1 s per simulator);
+    # a run that never ends is the hang rule's business, this one only catches waits of many seconds
+    if res.virtual_elapsed > 2.0 * n_remote + 5.0:
         fails.append(Failure("C14.slow", f"C14.slow|{shape}",
                              f"run() took {res.virtual_elapsed:.2f} virtual seconds to terminate"))
     nontrivial = f["req"] >= 1 and bool(others)
